@@ -72,7 +72,7 @@ def replay_chunk(args):
             rnd = random.Random(f"{seed}-{si}")
             # every other scenario compiles its second main as C++: headers are then reached from includers of
             # different languages within one run
-            m = scen.Mat(sc, base, seed=rnd.random(), ext_of=({"src/m2.c": ".cpp"} if si % 2 else None))
+            m = scen.Mat(sc, base, dotted=True, seed=rnd.random(), ext_of=({"src/m2.c": ".cpp"} if si % 2 else None))
             tags = scen.features(sc) | {"c08"}
             if "argv.forced_name_beside_main" in tags:
                 # the -include look-up deviation is C04's recorded finding; it says nothing about isolation
